@@ -252,6 +252,7 @@ func c13Run(c *Ctx, tp *tape.Tape, extra map[string]any) *Failure {
 			oo := lo
 			oo.World = x.w
 			oo.Compare = true
+			oo.Brief = tp.Next(2) == 0 // compare-all runs 'do-approve --brief compare'
 			x.w.DevName = d.name
 			if tp.Next(4) == 0 {
 				oo.Faults = []cisco.Fault{{At: 3 + tp.Next(8), Kind: []string{"close", "stall"}[tp.Next(2)]}}
